@@ -40,8 +40,8 @@ theorem accepted_shape {e0 e1 : Ens} {old0 old1 : List Frame} {bw fw : Script} {
       r.path0 = tmp0.reverse ++ [d] ∧ r.path1 = a :: tmp1 ∧
       2 ≤ tmp0.length ∧ tmp0.length + 1 < e0.maxlen ∧ 2 ≤ tmp1.length ∧ tmp1.length + 1 < e1.maxlen ∧
       status0 e0 r.path0 = .ACC ∧
-      r.reqs = [propReq 0 (e1.maxlen - 1) e0.i0 e0.i2 c true, Req.dump 1 1 d.cfg,
-                propReq 1 (e1.maxlen - 1) e1.i0 e1.i2 b false, Req.dump 0 0 a.cfg] := by
+      r.reqs = [propReq 0 (e1.maxlen - 1) e0.i0 e0.i2 c true, Req.dump 1 1 d.cfg true,
+                propReq 1 (e1.maxlen - 1) e1.i0 e1.i2 b false, Req.dump 0 0 a.cfg true] := by
   obtain ⟨_, last0, hlast, hcase⟩ := retis_ok h
   rcases hcase with ⟨_, rfl⟩ | ⟨_, path0, rq0, path1, rq1, hb0, hb1, hf⟩
   · simp [rejected0L] at ha
@@ -174,8 +174,8 @@ def fw : Script := ⟨none, [g (-1), g 1, g 1]⟩
 def res : Result :=
   { accept := true, status := .ACC, path0 := [frv (-1), frv (-1), frv (-1), fr 1],
     path1 := [fr (-1), fr 1, fr (-1)], st0 := .ACC, st1 := .ACC, w0 := 1, w1 := 1,
-    reqs := [.propagate 0 true (-1) ⟨0, 0⟩ 3 (-9) 0, .dump 1 1 ⟨0, 0⟩,
-             .propagate 1 false 1 ⟨0, 0⟩ 3 0 3, .dump 0 0 ⟨0, 0⟩],
+    reqs := [.propagate 0 true (-1) ⟨0, 0⟩ 3 (-9) 0 true, .dump 1 1 ⟨0, 0⟩ true,
+             .propagate 1 false 1 ⟨0, 0⟩ 3 0 3 true, .dump 0 0 ⟨0, 0⟩ true],
     draws := 0, expArg := none }
 end Cex
 
@@ -276,6 +276,98 @@ theorem quantis_exponent (beta0 beta1 : Rat) (v0r0 v0r1 v1r1 v1r0 : Int) :
   unfold expArgOf
   rw [Rat.mul_comm beta0, Rat.mul_comm beta1]
   simp [Rat.intCast_sub]
+
+/-! ### the old paths are left untouched (the C09 clause "a rejected move leaves the old path untouched",
+for the zero swaps)
+
+The model is pure, so its inputs cannot change; what can be stated — and what the tie compares on every
+call — is that every object the engines are asked to mutate (`propagate` re-points `config` and forces
+`vel_rev`; `dump_phasepoint` re-points `config`) is a fresh copy, never a frame object of an old path.
+The harness logs for each request whether the `System` it received is (by identity) a frame of an old
+path and additionally snapshots both old paths around every call. -/
+
+theorem buildPath0_fresh {e0 e1 : Ens} {allowed : Bool} {old1 : List Frame} {bw : Script}
+    {p : List Frame} {rq : List Req} (h : buildPath0 e0 e1 allowed old1 bw = .ok (p, rq)) :
+    rq.all Req.fresh = true := by
+  unfold buildPath0 at h
+  repeat' split at h
+  all_goals cases h
+  all_goals simp [propReq, Req.fresh]
+
+theorem buildPath1_fresh {e1 : Ens} {allowed : Bool} {old0 : List Frame} {last0 : Frame} {fw : Script}
+    {p : List Frame} {rq : List Req} (h : buildPath1 e1 allowed old0 last0 fw = .ok (p, rq)) :
+    rq.all Req.fresh = true := by
+  unfold buildPath1 at h
+  repeat' split at h
+  all_goals cases h
+  all_goals simp [propReq, Req.fresh]
+
+/-- **`retis_swap_zero` hands only copies to the engines** (whatever the outcome: accepted, rejected
+    before or after propagation); the '0-L' early return asks nothing and gives back the old paths. -/
+theorem swap_leaves_old_untouched {e0 e1 : Ens} {old0 old1 : List Frame} {bw fw : Script} {xi : Rat}
+    {r : Result} (h : retisSwapZero e0 e1 old0 old1 bw fw xi = .ok r) :
+    ∀ q ∈ r.reqs, q.fresh = true := by
+  obtain ⟨_, last0, _, hcase⟩ := retis_ok h
+  rcases hcase with ⟨_, rfl⟩ | ⟨_, path0, rq0, path1, rq1, hb0, hb1, hf⟩
+  · simp [rejected0L]
+  · rw [(finish_spec hf).2.2.1]
+    have := List.all_append (xs := rq0) (ys := rq1) (f := Req.fresh)
+    have hall : (rq0 ++ rq1).all Req.fresh = true := by
+      rw [this, buildPath0_fresh hb0, buildPath1_fresh hb1]; rfl
+    exact fun q hq => List.all_eq_true.mp hall q hq
+
+/-- requests collected by the part of `quantis_swap_zero` before the energy rule -/
+def preReqs : QPre → List Req
+  | .err _ => []
+  | .early _ _ _ _ _ rq => rq
+  | .reached _ _ rq _ _ => rq
+
+theorem quantisPre_fresh (e0 : Ens) (old0 old1 : List Frame) (scA scB : Script) (beta0 beta1 : Rat) :
+    (preReqs (quantisPre e0 old0 old1 scA scB beta0 beta1)).all Req.fresh = true := by
+  unfold quantisPre
+  dsimp only
+  repeat' split
+  all_goals simp [preReqs, propReq, Req.fresh]
+
+theorem quantisCompleteCore_fresh {e0 e1 : Ens} {lam : Int} {m0 m1 : Nat} {sc1L : Bool}
+    {tmp0 tmp1 : List Frame} {scC scD : Script} {reqs : List Req}
+    {out : Bool × Status × List Frame × List Frame × Status × Status × Nat × List Req}
+    (h : quantisCompleteCore e0 e1 lam m0 m1 sc1L tmp0 tmp1 scC scD reqs = .ok out)
+    (hin : reqs.all Req.fresh = true) : out.2.2.2.2.2.2.2.all Req.fresh = true := by
+  unfold quantisCompleteCore at h
+  dsimp only at h
+  repeat' split at h
+  all_goals cases h
+  all_goals simp [List.all_append, hin, propReq, Req.fresh]
+
+/-- the same for `quantis_swap_zero` -/
+theorem quantis_leaves_old_untouched {e0 e1 : Ens} {old0 old1 : List Frame} {scA scB scC scD : Script}
+    {aa : Bool} {beta0 beta1 xi p : Rat} {r : Result}
+    (h : quantisSwapZero e0 e1 old0 old1 scA scB scC scD aa beta0 beta1 xi p = .ok r) :
+    ∀ q ∈ r.reqs, q.fresh = true := by
+  have hpf := quantisPre_fresh e0 old0 old1 scA scB beta0 beta1
+  suffices hall : r.reqs.all Req.fresh = true from fun q hq => List.all_eq_true.mp hall q hq
+  unfold quantisSwapZero at h
+  cases hpre : quantisPre e0 old0 old1 scA scB beta0 beta1 with
+  | err e => simp [hpre] at h
+  | early st p0 p1 s0 s1 reqs =>
+    simp only [hpre, Except.ok.injEq] at h
+    subst h
+    rw [hpre] at hpf; exact hpf
+  | reached t0 t1 reqs ea sc =>
+    rw [hpre] at hpf
+    simp only [hpre] at h
+    split at h
+    · unfold quantisComplete at h
+      split at h
+      · cases h
+      · rename_i hc
+        simp only [Except.ok.injEq] at h
+        subst h
+        exact quantisCompleteCore_fresh hc hpf
+    · simp only [Except.ok.injEq] at h
+      subst h
+      exact hpf
 
 /-! ### swapping twice -/
 
